@@ -419,6 +419,14 @@ func genTxn(t *rapid.T, m *Model, recent []uint32, cfg TxnCfg) TxnSpec {
 					failedCreate[len(spec.Steps)] = true
 				} else {
 					inserts = append(inserts, len(spec.Steps))
+					if cfg.KeyOps && kind == SInsertKey && rapid.IntRange(0, 5).Draw(t, "also-key") == 0 {
+						// the callback re-keys the new row before InsertKey queues its own key
+						k2 := rapid.SampledFrom(keyAlphabet).Draw(t, "also-key-name")
+						if _, taken := m.KeyOf(k2); !taken && !creating[k2] && k2 != st.Key {
+							st.AlsoKey = k2
+							creating[k2] = true
+						}
+					}
 				}
 			} else if kind == SUpsertKey {
 				at, _ := m.KeyOf(st.Key)
